@@ -5,7 +5,8 @@ From ClapModel Require Import Parse.Cmd Parse.Build Parse.Valid Parse.Matcher Pa
 From ClapModel Require Import ParseProofs.Safe ParseProofs.Invariant ParseProofs.Totality
                               ParseProofs.TotalityMain ParseProofs.IndexInv ParseProofs.Provenance Properties.C01.
 From ClapModel Require Import ParseProofs.Actions ParseProofs.Unparse ParseProofs.UnparseProofs ParseProofs.UnparseTop
-                              ParseProofs.UnparseSub ParseProofs.UnparseTree ParseProofs.UnparseExamples.
+                              ParseProofs.UnparseSub ParseProofs.UnparseTree ParseProofs.UnparseIdx ParseProofs.UnparseIdxTop
+                              ParseProofs.UnparseExamples.
 From Coq Require Import ZArith Sorting.Sorted List.
 Import ListNotations.
 Open Scope N_scope.
@@ -269,3 +270,57 @@ Proof.
   split; [exact UnparseEx.ex_tree_render|]. exact UnparseEx.ex_tree_parse.
 Qed.
 Print Assumptions C02_unparse_tree_nonvacuous.
+
+(** * The indices (ParseProofs/UnparseIdx.v, UnparseIdxTop.v) *)
+
+(** THE INDEX RULE of one occurrence, for every state with unique keys: the counter advances by one
+    for the name of an option given by flag ([name_bump]: Set/Append by [--o]/[-o]) and by one per
+    stored value ([stored_count]); the argument's index list becomes what it keeps (Append) followed
+    by exactly the counter values of the stored values ([span k n] = k+1 .. k+n). *)
+Theorem C02_index_rule : forall c idn s a raw ti st st' pr,
+  wf_m (mt st) -> ~ In (a_id a) (groups_for_arg c (a_id a)) ->
+  react_core c idn s a raw ti st = ROk (st', pr) ->
+  exists vals, occ_values c a raw ti = Some vals /\
+    cur_idx st' = cur_idx st + name_bump idn s a + N.of_nat (stored_count a vals) /\
+    idx_of (a_id a) (mt st') =
+      Some (kept_idx c s a (idx_of (a_id a) (mt st)) ++ span (cur_idx st + name_bump idn s a) (stored_count a vals)).
+Proof. exact react_core_idx. Qed.
+Print Assumptions C02_index_rule.
+
+(** INDICES OF AN INVOCATION.  At the root of any tree (hence at every level) the index list
+    reported for an argument is the one the invocation denotes ([denote_idx]: the fold of the index
+    rule over the level's occurrences, counter starting at 0). *)
+Theorem C02_indices_tree : forall i c f st, valid_tree (S f) c = true -> wf_inv c i = true ->
+  get_matches_with (S f) c (render_inv i) ps_new = ROk st ->
+  forall a ix, In a (c_args c) -> denote_idx c (a_id a) (inv_items i) = Some ix ->
+  idx_of (a_id a) (mt st) = Some ix.
+Proof. exact indices_inv. Qed.
+Print Assumptions C02_indices_tree.
+
+(** INDICES INCREASE IN ARGV ORDER.  The index events of a level, taken in command-line order
+    ([events]: one entry per occurrence, the indices of its stored values), form one strictly
+    increasing sequence; an Append argument of a command without override relations reports exactly
+    its own events, in that order. *)
+Theorem C02_index_events_increasing : forall c its, StronglySorted N.lt (concat (map snd (events c its))).
+Proof. exact events_increasing. Qed.
+Print Assumptions C02_index_events_increasing.
+
+Theorem C02_indices_append : forall c its a, conv c = true -> no_overrides c = true -> In a (c_args c) ->
+  a_get_action a = AAppend -> (0 < Actions.count_occ (a_id a) (occs c 1 its))%nat ->
+  denote_idx c (a_id a) its = Some (own_events (a_id a) (events c its)).
+Proof. exact denote_idx_append. Qed.
+Print Assumptions C02_indices_append.
+
+(** Non-vacuity: the indices of [--qu F -vvoAB --opt=== --mu A B,C -vm A -s= R S --yy -v T]
+    (option names 5, 7, 9, 14, 16, 20 are consumed by [-o], [--opt], [--mu], [-m], [-s], [--yy]). *)
+Theorem C02_indices_nonvacuous :
+  denote_idx UnparseEx.c [111] UnparseEx.its = Some [6; 8] /\
+  UnparseEx.idx_after (render UnparseEx.its) [111] = Some (Some [6; 8]) /\
+  denote_idx UnparseEx.c [109] UnparseEx.its = Some [10; 11; 12; 15] /\
+  UnparseEx.idx_after (render UnparseEx.its) [109] = Some (Some [10; 11; 12; 15]) /\
+  denote_idx UnparseEx.c [114] UnparseEx.its = Some [18; 19; 23] /\
+  UnparseEx.idx_after (render UnparseEx.its) [114] = Some (Some [18; 19; 23]) /\
+  denote_idx UnparseEx.c [118] UnparseEx.its = Some [22] /\
+  UnparseEx.idx_after (render UnparseEx.its) [118] = Some (Some [22]).
+Proof. exact UnparseEx.ex_idx. Qed.
+Print Assumptions C02_indices_nonvacuous.
